@@ -798,7 +798,7 @@ impl SymbolTable {
     /// assert_eq!(sym.get_label_source("LOOP_DE_LOOP"), None);
     /// ```
     pub fn get_label_source(&self, label: &str) -> Option<Range<usize>> {
-        self.label_map.get(label)
+        self.label_map.get(&label.to_uppercase())
             .map(|data| data.span(label))
     }
 
